@@ -24,6 +24,18 @@ open MM
     names is reached by a `redact(&…)` call (finite check over the regenerated tables). -/
 theorem C35_covers : ∀ p ∈ secretPaths, p ∈ redactedPaths := by decide
 
+/-- Name-based screen over the WHOLE regenerated schema: every string leaf with a secret-looking
+    name is redacted or on the reviewed allow-list.  A new secret-looking field added without a
+    `redact(&…)` call breaks this (finite check over the regenerated tables). -/
+theorem C35_name_screen :
+    ∀ l ∈ Gen.C35.leaves, l.looksSecret = true → l.yaml ∈ redactedPaths ∨ l.yaml ∈ notSecretAllowList := by decide
+
+/-- The allow-list does not hide anything the property names: no allow-listed path is in a secret
+    class, and every secret-class leaf is caught by the name screen too. -/
+theorem C35_allowlist_sound :
+    (∀ p ∈ notSecretAllowList, p ∉ secretPaths) ∧
+    (∀ l ∈ Gen.C35.leaves, isSecretLeaf l = true → l.looksSecret = true) := by decide
+
 /-- No path is blanked in some list entries and kept in others. -/
 theorem C35_uniform : Gen.C35.partialPaths = [] := by decide
 
